@@ -1,12 +1,20 @@
 (* C08  Content of disallowed invisible-content elements is removed.   (partial)
    Proved for every token list: while the loop is in its content-skipping state nothing but the
    AddSpaceWhenStrippingTag blank is emitted (no text, no tag, no comment).
-   Missing for the full statement: the characterisation, for well-nested documents, of the
-   skipping state as "inside a disallowed skip-content element" (tree induction); that part is
-   carried by the bounded-exhaustive loop correspondence and the marker oracle. *)
+   Proved for well-formed documents (Proofs/TreeSem.v): for every forest of nodes in which every
+   non-void element is opened and closed and no script/style occurs, every policy and matcher
+   interpretation, the loop emits exactly the denotation out_node of the forest
+   (C08_tree_semantics): a disallowed skip-content element contributes nothing but the blanks of
+   AddSpaceWhenStrippingTag (C08_skipped_content_absent), nested skip-content elements included;
+   every other element contributes its (kept or removed) tags around the denotation of its
+   children; a text node contributes itself.  Hence the texts of the output are exactly the texts
+   outside disallowed skip-content elements, in order (C08_texts).  For documents with script and
+   style only well-nestedness of the output is proved (C09).
+   Missing: the parse of arbitrary bytes into such a forest (HTML5 tree construction is not
+   modelled; the tokenizer model gives the token list); carried by the marker oracle. *)
 From Coq Require Import List NArith Bool.
 Import ListNotations.
-From BM Require Import Bytes Tokenizer Policy Loop LoopInv LoopProps.
+From BM Require Import Bytes Tokenizer Policy Loop LoopInv LoopProps TreeSem.
 
 Section C08.
   Variables M U R : Type.
@@ -17,7 +25,49 @@ Section C08.
   Theorem C08_skipping_emits_nothing_partial : forall st t st' out,
     step I p st t = Ok st' out -> skip st = true -> Forall (fun it => it = ISpace) out.
   Proof. exact (step_skip_only_spaces I p safe). Qed.
+
+  (* well-formed documents as trees; no AllowUnsafe hypothesis is needed here *)
+  Theorem C08_tree_semantics : forall f, forallb wf f = true -> forallb plain f = true ->
+    emitted I p (flatten_forest f) = flat_map (out_node M U R I p) f /\ snd (run_items I p (flatten_forest f)) = false.
+  Proof. intros f Hw Hp. unfold emitted. rewrite (tree_semantics I p f Hw Hp). split; reflexivity. Qed.
+
+  (* what a disallowed skip-content element leaves: the blanks of removed tags, nothing else *)
+  Theorem C08_skipped_content_absent : forall n a kids,
+    element_policies I p n = None -> mem n (elsSkipContent p) = true ->
+    Forall (fun it => it = ISpace) (out_node M U R I p (NElem n a kids)).
+  Proof.
+    intros n a kids Hp Hm. cbn [out_node]. rewrite Hp, Hm.
+    apply Forall_app. split; [apply sp_spaces|]. apply Forall_app. split; [|apply sp_spaces].
+    induction kids as [|k ks IH]; cbn [flat_map]; [constructor|]. apply Forall_app. split; [apply skipped_spaces | exact IH].
+  Qed.
+
+  (* the texts of the output are exactly the texts outside disallowed skip-content elements *)
+  Theorem C08_texts : forall f, forallb wf f = true -> forallb plain f = true ->
+    item_texts_of (emitted I p (flatten_forest f)) = flat_map (texts_outside M U R I p) f.
+  Proof.
+    intros f Hw Hp. rewrite (proj1 (C08_tree_semantics f Hw Hp)).
+    apply item_texts_flat. apply Forall_forall. intros nd _. apply out_node_texts.
+  Qed.
 End C08.
+
+(* non-vacuity: a document with an iframe (default skip-content element) inside a kept b *)
+From BM Require Import Builder GenScripts C04Inst.
+Section C08Example.
+  Variable I : interp smatcher unit unit.
+  Definition c08_policy : policy smatcher unit unit := build no_default [@OAllowElements _ _ _ [B"b"]].
+  Definition c08_doc : list node :=
+    [NElem (B"b") [] [NText (B"in"); NElem (B"iframe") [] [NText (B"hidden"); NElem (B"b") [] [NText (B"deep")]]; NText (B"out")]].
+  Example C08_example : forallb wf c08_doc = true /\ forallb plain c08_doc = true /\
+    emitted I c08_policy (flatten_forest c08_doc) =
+      [ITag (TStart (B"b") []); IText (B"in"); IText (B"out"); ITag (TEnd (B"b"))].
+  Proof.
+    split; [vm_compute; reflexivity|]. split; [vm_compute; reflexivity|].
+    rewrite (proj1 (C08_tree_semantics _ _ _ I c08_policy c08_doc eq_refl eq_refl)). vm_compute. reflexivity.
+  Qed.
+End C08Example.
 
 (* a disallowed skip-content element does switch the skipping state on (non-vacuity) *)
 Print Assumptions C08_skipping_emits_nothing_partial.
+Print Assumptions C08_tree_semantics.
+Print Assumptions C08_skipped_content_absent.
+Print Assumptions C08_texts.
